@@ -13,7 +13,7 @@ RULE = (
     "every double edit (thorough: exhaustive; quick: seeded sample) of 7 consistent base tables over 2 faces x 2 axes and "
     "3 faces, where an edit replaces a link by None or by any (face in {0,1,2,7}, axis in {X,Y,Q}, reverse) triple; plus "
     "seeded random reciprocal tables of 1-6 faces with self-links (must be accepted), tables with two face dimensions and "
-    "with a face dimension missing from the dataset, and reciprocal tables one of whose faces is consistently renumbered to a number the face dimension lacks (-1, -2, nf, nf+3) (must be refused). Oracle: independent reciprocity predicate; any "
+    "with a face dimension missing from the dataset or naming a variable / non-index coordinate instead of a dimension, and reciprocal tables one of whose faces is consistently renumbered to a number the face dimension lacks (-1, -2, nf, nf+3) (must be refused). Oracle: independent reciprocity predicate; any "
     "exception counts as refusal. Class = (table family, #links, kinds of links present, model verdict); non-trivial iff "
     "the table has at least one link."
 )
@@ -73,7 +73,7 @@ N_DOUBLES = [len(slots(b)) * (len(slots(b)) - 1) // 2 * (len(VALUES) - 1) ** 2 f
 N_RANDOM = {"quick": 600, "thorough": 60000}
 N_DOUBLE_SAMPLE = 2500
 BUDGET = {
-    "quick": len(T625) + len(SINGLES) + N_DOUBLE_SAMPLE + N_RANDOM["quick"] + 40,
+    "quick": len(T625) + len(SINGLES) + N_DOUBLE_SAMPLE + N_RANDOM["quick"] + 60,
     "thorough": len(T625) + len(SINGLES) + sum(N_DOUBLES) + N_RANDOM["thorough"] + 400,
 }
 MIN_EVALS = {"quick": 3000, "thorough": 60000}
@@ -116,7 +116,7 @@ def gen_case(rng, i, tier):
         rng.shuffle(items)
         return {"family": "random-reciprocal", "table": dict(items), "nfaces": nf, "axes": ["X", "Y"]}
     kind = rng.choice(["two-face-dims", "two-face-dims-one-absent", "two-face-dims-absent-first", "facedim-absent", "facedim-absent-consistent",
-                       "relabelled-face", "relabelled-face"])
+                       "relabelled-face", "relabelled-face", "facedim-is-a-variable", "facedim-is-a-variable"])
     nf = rng.randint(2, 4)
     t = linktable.random_reciprocal(rng, nf, p_link=0.9)
     if kind == "relabelled-face":
@@ -164,6 +164,15 @@ def run_case(ctx, desc):
     elif fam.startswith("facedim-absent"):
         fc = {"panel": t}
         expect = False
+    elif fam == "facedim-is-a-variable":
+        # the key names something the dataset has - a coordinate / data variable along the real face dimension holding
+        # the face numbers - but not a dimension
+        if (ctx.case_index or 0) % 2:
+            coords["tile"] = ("face", np.arange(nf))
+        else:
+            coords["tile_holder"] = ("face", np.zeros(nf))
+        fc = {"tile": t}
+        expect = False
     elif fam == "relabelled-face-unlinked":
         # the renumbered face carries no link at all: whether an entry without links for a non-existent face is an
         # error is not stated; not judged
@@ -181,6 +190,8 @@ def run_case(ctx, desc):
 
         fc = {k: respell(v) for k, v in fc.items()}
     ds = xr.Dataset(coords=coords)
+    if fam == "facedim-is-a-variable" and "tile" not in ds.coords:
+        ds["tile"] = ("face", np.arange(nf))  # ... as a data variable
     try:
         Grid(ds, coords=cm, face_connections=fc, periodic=False, autoparse_metadata=False)
         accepted, err = True, None
